@@ -35,9 +35,17 @@ type Bit struct {
 // Int is a 64-bit vector (bit 0 = least significant). Sym, when set, names an opaque quantity
 // (len(recv), a parameter that is not bit-tracked ...) whose bits are all Unknown.
 type Int struct {
-	B   [64]Bit
-	Sym string
-	Min uint64 // lower bound of an opaque (Sym) sum of non-negative terms
+	B       [64]Bit
+	Sym     string
+	Min     uint64 // lower bound of an opaque (Sym) sum of non-negative terms
+	NonZero bool   // an opaque value known to be different from zero
+}
+
+// NonZeroInt is an opaque value about which only "!= 0" is known.
+func NonZeroInt(name string) Int {
+	r := UnknownInt(name)
+	r.NonZero = true
+	return r
 }
 
 // lower is a lower bound of the (unsigned) value.
@@ -884,6 +892,10 @@ type Eval struct {
 	Inline func(callee *ssa.Function) bool
 	// Unroll allows a block to be revisited this many times on one path (loops with a concrete trip count).
 	Unroll int
+	// ByteValue overrides the value of byte off of source src (finite abstractions of the input).
+	ByteValue func(src string, off int) (Int, bool)
+	// StopAt ends a path when it enters a block for which it returns true; the values it returns become the path's result.
+	StopAt func(b *ssa.BasicBlock, value func(ssa.Value) Val) ([]Val, bool)
 	nmake  int
 }
 
@@ -947,12 +959,26 @@ func (e *Eval) run(fn *ssa.Function, args []Val, depth int) []Ret {
 			out = append(out, Ret{Vals: []Val{Opaque{"loop"}}, Path: strings.Join(w.f.path, " "), Writes: ws, Loop: true})
 			continue
 		}
-		vis := map[*ssa.BasicBlock]int{}
-		for k, v := range w.visits {
-			vis[k] = v
-		}
+		// the visit counts are owned by this path: they are copied only where the path forks
+		vis := w.visits
 		vis[w.b]++
 		fr := w.f
+		if e.StopAt != nil && depth == 0 {
+			// φs of the block are evaluated first so that the hook sees them
+			for _, ins := range w.b.Instrs {
+				if t, ok := ins.(*ssa.Phi); ok {
+					for i, p := range w.b.Preds {
+						if p == w.pred {
+							fr.env[t] = e.val(fr, t.Edges[i])
+						}
+					}
+				}
+			}
+			if vals, stop := e.StopAt(w.b, func(v ssa.Value) Val { return e.val(fr, v) }); stop {
+				out = append(out, Ret{Vals: vals, Path: strings.Join(fr.path, " && "), Writes: fr.writes})
+				continue
+			}
+		}
 		done := false
 		for _, ins := range w.b.Instrs {
 			switch t := ins.(type) {
@@ -979,7 +1005,11 @@ func (e *Eval) run(fn *ssa.Function, args []Val, depth int) []Ret {
 				f2 := fr.clone()
 				fr.path = append(fr.path, Str(c))
 				f2.path = append(f2.path, "!"+Str(c))
-				stack = append(stack, work{w.b.Succs[1], w.b, f2, vis})
+				vis2 := make(map[*ssa.BasicBlock]int, len(vis))
+				for k, v := range vis {
+					vis2[k] = v
+				}
+				stack = append(stack, work{w.b.Succs[1], w.b, f2, vis2})
 				stack = append(stack, work{w.b.Succs[0], w.b, fr, vis})
 				done = true
 			case *ssa.Jump:
@@ -1220,6 +1250,11 @@ func (e *Eval) load(f *frame, x Val) Val {
 		idx, isC := p.Idx.IsConst()
 		lo, loC := p.Of.Lo.IsConst()
 		if isC && loC {
+			if e.ByteValue != nil {
+				if v, ok := e.ByteValue(p.Of.Src, int(lo+idx)); ok {
+					return v
+				}
+			}
 			return Byte(p.Of.Src, int(lo+idx))
 		}
 		return UnknownInt("byte at " + p.Of.Lo.Add(*p.Idx).String())
@@ -1324,7 +1359,7 @@ func (e *Eval) binop(f *frame, t *ssa.BinOp) Val {
 		if ok1 && ok2 {
 			// x != 0, x == 0
 			if c, isC := yi.IsConst(); isC && c == 0 && (t.Op == token.NEQ || t.Op == token.EQL) {
-				if xi.Sym != "" && xi.Min > 0 {
+				if xi.Sym != "" && (xi.Min > 0 || xi.NonZero) {
 					one := ConstInt(1)
 					return Bool{NZ: &one, Neg: t.Op == token.EQL}
 				}
